@@ -332,6 +332,10 @@ def specP (host : Bytes) (want : List Bytes) (wantQuery : Values) (outs : List S
     | _, _ => false
   | _ => false
 
+/-- client/runtime.go `New`: the base path the Runtime holds — the given one, rooted by prefixing `/`
+when it does not start with one; nothing else is touched (in particular not a query string in it). -/
+def clientNewBasePath (b : Bytes) : Bytes := if b.head? == some 47 then b else 47 :: b
+
 def judgeP (host base pattern : Bytes) (params : List (Bytes × Bytes)) (caller : Values) (outs : List String) : Verdict :=
   let o := " ".intercalate outs
   let mOf (ps : List (Bytes × Bytes)) := encURL (build base pattern ps caller http host)
@@ -368,8 +372,11 @@ def judgeP (host base pattern : Bytes) (params : List (Bytes × Bytes)) (caller 
 def run (ins outs : List String) : Verdict :=
   match ins, outs with
   | ["P", host, base, pattern, names, vals, ck, cv], outs =>
-    match decField host, decField base, decField pattern, decPairs names vals, decValues ck cv with
-    | some h, some b, some pat, some params, some caller => judgeP h b pat params caller outs
+    -- base: `N<hex>` = the base path handed to `client.New`; `<hex>` = `Runtime.BasePath` set directly
+    let viaNew := base.startsWith "N"
+    match decField host, decField (if viaNew then (base.drop 1).toString else base), decField pattern, decPairs names vals, decValues ck cv with
+    | some h, some b, some pat, some params, some caller =>
+      judgeP h (if viaNew then clientNewBasePath b else b) pat params caller outs
     | _, _, _, _, _ => .bad "P fields"
   | ["Q", bk, bv, pk, pv, ck, cv], [ok, ov, rq] =>
     match decValues bk bv, decValues pk pv, decValues ck cv with
